@@ -86,7 +86,9 @@ _opcache = {}
 
 
 def site_shape(frame):
-    """Distinctness measure: opcode 4-gram ending at f_lasti."""
+    """Distinctness measure: the (up to 9) opcodes around f_lasti, i.e. how this
+    suspension / call site was reached (for an exiting frame: the path into the
+    __exit__ call sequence)."""
     code = frame.f_code
     ops = _opcache.get(id(code))
     if ops is None or ops[0] is not code:
@@ -107,7 +109,7 @@ def site_shape(frame):
             break
     if idx is None:
         return ("start",)
-    names = [n for (_, n) in lst[max(0, idx - 3): idx + 2]]
+    names = [n for (_, n) in lst[max(0, idx - 7): idx + 2] if n != "CACHE"]
     return tuple(names)
 
 
